@@ -1,5 +1,68 @@
-import BVM.Model.Rt
+/-
+  Props/C05.lean — property C05: packet and record timestamps are consistent snapshots of a
+  monotonic clock.
+
+  Setting: the data stream type has a default clock (`d.clock = some clk`); the platform's clock
+  source adds a non-negative increment at every call (it never goes backwards) and returns the
+  value converted to the clock's C type.  `NoWrap`: the unwrapped clock stays below 2^width until the
+  end of the history — the property's "never goes backwards" for the returned values.  `tsWrite`
+  ghost events record every value handed to a timestamp position (packet beginning, record, packet
+  end), in write order, which is also the order of those positions in the data stream.
+
+    * timestamps_nondecreasing — for every configuration, history, platform script, buffer size: the
+      values written to timestamp positions are non-decreasing in write order (`sortedTs`), i.e.
+      within every packet beginning ≤ every record timestamp ≤ end, and the end of a packet ≤ the
+      beginning of the next; and none exceeds the current clock.
+    * record_ts_is_entry_sample — the timestamp a record receives is the value the clock callback
+      returned at the entry of its tracing call: `_reserve_er_space` (with all the packet switching
+      it may do) does not change `cur_last_event_ts`.
+  The fields hold these values modulo their size (writeBits reduces to the field size: C08).
+-/
+import BVM.Proofs.RtTs
 namespace BVM
-theorem c05_placeholder : True := trivial
-#print axioms c05_placeholder
+
+theorem timestamps_nondecreasing (cfg : Cfg) (d : DST) (clk : Clock) (hclk : d.clock = some clk) (hwf : ClockWF d)
+    (ops : List Op) (bytes : Nat) (p : Plat)
+    (hw : (runOps cfg d ops (rtInit bytes p)).p.clock < 2 ^ clk.ctype.width) :
+    sortedTs (runOps cfg d ops (rtInit bytes p)).log ∧
+    lastTs (runOps cfg d ops (rtInit bytes p)).log ≤ (runOps cfg d ops (rtInit bytes p)).p.clock := by
+  have h0 : TTop (rtInit bytes p) := ⟨⟨Nat.zero_le _, Nat.zero_le _, trivial⟩, rfl⟩
+  have := runOps_t cfg d clk hclk hwf ops (rtInit bytes p) (by simpa [clkW, hclk] using hw) h0
+  exact ⟨this.1.sorted, this.1.ts⟩
+
+/-- what `sortedTs` says, unfolded once: a newly written timestamp is at least the previous one -/
+theorem sortedTs_cons (k : String) (v : Nat) (l : List Ev) : sortedTs (.tsWrite k v :: l) ↔ lastTs l ≤ v ∧ sortedTs l :=
+  Iff.rfl
+
+theorem record_ts_is_entry_sample (cfg : Cfg) (d : DST) (clk : Clock) (hclk : d.clock = some clk)
+    (erSize emptySize : Nat) (s : St) (hu : s.c.useCurLastEventTs = false) :
+    (traceClock d s).c.curLastEventTs = (cbClock clk s).1 ∧
+    (reserve cfg d erSize emptySize (traceClock d s)).2.c.curLastEventTs = (cbClock clk s).1 := by
+  have h1 : (traceClock d s).c.curLastEventTs = (cbClock clk s).1 := by
+    unfold traceClock; simp only [hclk]; rfl
+  refine ⟨h1, ?_⟩
+  rw [(reserve_tf0 cfg d erSize emptySize _ ((traceClock_fr d s).2.trans hu)).cur, h1]
+
+/-! Non-vacuity: a run with a clock, a tracer-initiated packet switch and several timestamps written -/
+def exDst5 : DST :=
+  { name := "s", id := 0, clock := some ⟨"c", ⟨32, false⟩⟩,
+    feat := { totalSize := .int false 16 8, contentSize := .int false 16 8, tsBegin := some (.int false 32 8),
+              tsEnd := some (.int false 32 8), discarded := none, seqNum := none, ertId := none,
+              erTs := some (.int false 16 8) },
+    pcExtra := [], ercc := none,
+    erts := [{ name := "e", id := 0, sc := none, p := some ⟨1, [⟨"x", .el (.sc (.int false 8 8))⟩]⟩ }] }
+def exCfg5 : Cfg :=
+  { bo := .le, fast := true, uuid := [], feat := { magic := none, uuid := false, dstId := none }, dsts := [exDst5] }
+def exRun5 : St :=
+  runOps exCfg5 exDst5 [.open_, .trace "e" [("p_x", [.num 7])], .trace "e" [("p_x", [.num 8])],
+    .trace "e" [("p_x", [.num 9])], .fin] (rtInit 18 { clockIncs := [3, 0, 5, 2, 2, 9] })
+
+example : exRun5.halted = false ∧ exRun5.p.clock < 2 ^ 32 ∧ ClockWF exDst5 ∧
+    (exRun5.log.filterMap fun e => match e with | .tsWrite _ v => some v | _ => none).length ≥ 6 := by
+  refine ⟨by decide +kernel, by decide +kernel, ?_, by decide +kernel⟩
+  intro h; cases h
+
+#print axioms timestamps_nondecreasing
+#print axioms sortedTs_cons
+#print axioms record_ts_is_entry_sample
 end BVM
